@@ -1276,14 +1276,17 @@ def _parse_header(line: str) -> tuple[str, dict[str, str]]:
     decoded_params.pop(0)  # get rid of the dummy again
     pdict = {}
     for name, decoded_value in decoded_params:
+        if isinstance(decoded_value, tuple):
+            # decode_params hands back an RFC 2231 value re-quoted (and
+            # re-escaped); undo that, as it is done for plain values.
+            charset, language, text = decoded_value
+            decoded_value = (charset, language, email.utils.unquote(text))
         try:
             value = email.utils.collapse_rfc2231_value(decoded_value)
         except ValueError:
             # Some unusable charset names raise ValueError/UnicodeError
             # rather than the LookupError the stdlib falls back on.
-            value = email.utils.unquote(decoded_value[2])
-        if len(value) >= 2 and value[0] == '"' and value[-1] == '"':
-            value = value[1:-1]
+            value = decoded_value[2]
         pdict[name] = value
     return key, pdict
 
